@@ -8,6 +8,7 @@
 """
 
 import abc
+import copy
 import warnings
 from functools import partial
 from multiprocessing import Value, Lock
@@ -703,11 +704,11 @@ class SurfaceContainer(AbstractContainer):
         v_offset = 0
         f_offset = 0
         for elem in self._elements:
-            v = elem.vertices
+            # work on copies: the id offsets must not leak into the tessellation of the element itself
+            v, f = copy.deepcopy((elem.vertices, elem.faces))
             for i in range(len(v)):
                 v[i].id += v_offset
             verts += v
-            f = elem.faces
             for i in range(len(f)):
                 f[i].id += f_offset
                 # for j in range(len(f[i]._data)):
